@@ -310,8 +310,9 @@ func init() {
 			c01("H_snip", n(0), "quick", "parsed", "accepted", "rejected", "ran"),
 			c01("H_snip", map[string]int{"n": 1, "lo": 0, "hi": 3}, "quickonly", "parsed", "accepted", "rejected", "ran"),
 			c01("H_snip", map[string]int{"n": 1, "lo": 26, "hi": 29}, "quickonly", "parsed", "accepted", "rejected", "ran"),
+			c01("H_snip", map[string]int{"n": 1, "lo": 46, "hi": 49}, "quickonly", "parsed", "accepted", "rejected", "ran"),
 			c01("H_snip", map[string]int{"n": 1, "lo": 34, "hi": 37}, "quickonly", "parsed", "accepted", "rejected", "ran"),
-			c01("H_snip", map[string]int{"n": 0, "pool": 1, "lo": 34, "hi": 46}, "quickonly", "parsed", "accepted", "rejected", "ran"),
+			c01("H_snip", map[string]int{"n": 0, "pool": 1, "lo": 34, "hi": 49}, "quickonly", "parsed", "accepted", "rejected", "ran"),
 			c01("H_snip", map[string]int{"n": 0, "pool": 1}, "thorough", "parsed", "accepted", "rejected", "ran"),
 			c01("H_trunc", n(0), "quick", "parsed", "accepted", "rejected", "ran"),
 			c01("H_trunc", map[string]int{"n": 1, "lo": 34, "hi": 46}, "thorough", "parsed", "accepted", "rejected", "ran"),
